@@ -113,7 +113,7 @@ var stdInterpAllow = map[string]bool{
 	"internal/byteorder": true, "regexp": true, "regexp/syntax": true, "container/list": true,
 	"internal/bytealg": true, "context": true, "math/rand": false, "internal/oserror": true,
 	"internal/strconv": true, "internal/fmtsort": false, "text/tabwriter": true, "container/heap": true,
-	"hash/fnv": true, "hash": true, "internal/race": true, "internal/godebug": false, "unique": false,
+	"hash/fnv": true, "hash": true, "internal/race": true, "encoding/json": true, "encoding": true, "internal/godebug": false, "unique": false,
 }
 
 var stdInitAllow = map[string]bool{
@@ -124,7 +124,7 @@ var stdInitAllow = map[string]bool{
 	"internal/filepathlite": true, "encoding/base64": true, "encoding/hex": true, "encoding/binary": true,
 	"internal/byteorder": true, "regexp": true, "regexp/syntax": true, "container/list": true,
 	"context": true, "internal/oserror": true, "internal/strconv": true, "text/tabwriter": true,
-	"hash/fnv": true, "hash": true,
+	"hash/fnv": true, "hash": true, "encoding/json": true, "encoding": true,
 }
 
 const elpsModule = "github.com/luthersystems/elps"
